@@ -211,13 +211,24 @@ def run_prop(prop, tier, nquick, nthorough, concretise, maxn):
     if len(states) > want:
         idx = sorted(int(i) for i in rng.choice(len(states), size=want, replace=False))
         sel = [states[i] for i in idx]
-        spec = [s for s in states if s.get("special", "none") != "none"]
-        k = max(6, want // 8)
-        if spec:
+        kinds = sorted(set(s.get("special", "none") for s in states) - {"none"})
+        k = max(4, want // 12)
+        for kind in kinds:          # every special class is represented, however many patterns it has
+            spec = [s for s in states if s.get("special", "none") == kind]
             sel += [spec[int(i)] for i in rng.choice(len(spec), size=min(k, len(spec)), replace=False)]
     else:
         sel = states
+    if prop == "C05":
+        # dimensions beyond the enumerated ones, sampled from the same pattern sets (the property has no bound on n): many bounds active at the solution
+        for j in range(12 if tier == "quick" else 400):
+            n = int(rng.integers(8, 14))
+            status = [str(rng.choice(["free", "atL", "atU"], p=[0.4, 0.3, 0.3])) for _ in range(n)]
+            sel.append(dict(prop="C05", n=n, status=status, mclass=str(rng.choice(["square", "over"])), x0class=str(rng.choice(["interior", "onbound"])),
+                            scaling=bool(rng.random() < 0.3), nptclass="n+1", cond=int(rng.choice([1, 10, 100, 1000])), reg="none", bounded=True, args=False, special="none"))
     insts = [concretise(st, vlib.seed(), i + 1) for i, st in enumerate(sel)]
+    for inst in insts:
+        st = inst["pattern"]
+        inst["pclass"] = "n>=8,active>=half" if (st["n"] >= 8 and 2 * sum(1 for s in st["status"] if s != "free") >= st["n"]) else ""
     for inst in insts:
         inst["maxfun"] = inst.pop("maxfun_default")      # for the trace configuration (budget clause); solve() gets no maxfun argument
         inst["use_default_budget"] = True
